@@ -214,7 +214,7 @@ Proof. vm_compute. reflexivity. Qed.
 Example C14_evolution_nonvacuous :
   evo_wf w_evo_state /\ forallb op_ok [EAdd (mkcol "c" (KInt IInt None false false) false None false None); EDel (s2l "b")] = true
   /\ kept (s2l "a") w_evo_state [EAdd (mkcol "c" (KInt IInt None false false) false None false None); EDel (s2l "b")].
-Proof. split; [exact w_evo_wf|]. split; [vm_compute; reflexivity|]. cbn. repeat split; vm_compute; auto. Qed.
+Proof. split; [exact w_evo_wf|]. split; [vm_compute; reflexivity|]. vm_compute. repeat split; auto. Qed.
 Example C14_idempotent_example :
   snd (create_table_op w_evo true empty_db) = false
   /\ map t_name (db_tables (fst (create_table_op w_evo true empty_db))) = [s2l "vc_evo"]
